@@ -52,6 +52,7 @@ type Case struct {
 	Rehash *bool             `json:"rehash,omitempty"`
 	C      string            `json:"c,omitempty"`
 	Body   string            `json:"body,omitempty"`
+	S      string            `json:"s,omitempty"`
 	Src    map[string]string `json:"src,omitempty"`
 	Parts  []*Case           `json:"parts,omitempty"`
 }
@@ -72,6 +73,8 @@ func (c *Case) sig() string {
 		return fmt.Sprintf("body:%s:%v", c.E, c.Rehash != nil && *c.Rehash)
 	case "time", "key", "free":
 		return c.T + ":" + c.C
+	case "struct":
+		return "struct:" + c.S
 	case "mix":
 		var ks []string
 		for k, v := range c.Src {
@@ -396,11 +399,16 @@ type Original struct {
 	Parent   *types.Header
 	Proposer int
 	Sib      []byte            // honest sibling (same parent/proposer/time, another body); nil for empty blocks
+	E        []byte            // the honest EMPTY block of this height (the original itself when it is empty)
+	P        []byte            // an honest PROPOSAL of this height (the original itself when it is proposed)
 	Inelig   map[string][]byte // honest proposals of ineligible keys: "unknown", "offline"
 	Other    int               // key used for the "swap" case
 	Now      int64             // the validators' clock while the block travels
 	Note     string
 	refs     map[int][]string
+	twins    map[string][]string
+	byHash   map[common.Hash][]byte
+	names    map[common.Hash]string
 }
 
 type chainBuilder struct {
@@ -620,11 +628,20 @@ func (cb *chainBuilder) step(h uint64, last uint64) {
 	snap := sim.CopyDB(cb.full[kGod].DB)
 	now := head.Time() + 20
 	o := &Original{ID: len(cb.origs), Kind: p.kind, Height: h, Snap: snap, Parent: head, Proposer: p.proposer, Inelig: map[string][]byte{},
-		Note: p.note, refs: map[int][]string{}}
+		Note: p.note, refs: map[int][]string{}, twins: map[string][]string{}}
 	var blk *types.Block
+	inCeremony := head.Flags().HasFlag(types.FlipLotteryStarted) || cb.full[kGod].App.State.ValidationPeriod() != state.NonePeriod
+	o.E = sim.Encode(cb.full[kGod].Chain.GenerateEmptyBlock())
 	if p.kind == "empty" {
 		blk = cb.full[p.proposer].Chain.GenerateEmptyBlock()
 		o.Now = blk.Header.Time() + 1
+		// an honest proposal of the same height (ingredient of the structural cases)
+		var ptxs []*types.Transaction
+		if !inCeremony {
+			ptxs = []*types.Transaction{w.Tx(sim.TxSpec{From: kRich2, To: &w.Addrs[kVictim], Type: types.SendTx, Amount: sim.Dna(3, 1),
+				MaxFee: sim.Dna(100, 1), Nonce: 1})}
+		}
+		o.P = sim.Encode(cb.proposeOn(snap, p.proposer, ptxs, now))
 	} else {
 		pn := cb.full[p.proposer]
 		mustAddTxs(pn, p.txs)
@@ -654,7 +671,7 @@ func (cb *chainBuilder) step(h uint64, last uint64) {
 				alt = append(alt, tx)
 			}
 		}
-		if head.Flags().HasFlag(types.FlipLotteryStarted) || cb.full[kGod].App.State.ValidationPeriod() != state.NonePeriod {
+		if inCeremony {
 			// inside the ceremony the mempool takes no ordinary txs: no sibling with another body
 			o.Note += " (no sibling)"
 		} else {
@@ -688,6 +705,13 @@ func (cb *chainBuilder) step(h uint64, last uint64) {
 	}
 	o.Bytes = sim.Encode(blk)
 	o.Blk = sim.Decode(o.Bytes)
+	if p.kind == "empty" {
+		if !bytes.Equal(o.E, o.Bytes) {
+			panic("two honest empty blocks of one height differ")
+		}
+	} else {
+		o.P = o.Bytes
+	}
 	cb.origs = append(cb.origs, o)
 	for _, k := range []int{kGod, kVal1} {
 		n := cb.full[k]
@@ -797,6 +821,12 @@ func (tc *tamperCtx) applyOne(cur *built, c *Case, first bool) {
 			}
 			j := i + 1 + tc.rnd.Intn(len(txs)-i)
 			txs = append(txs[:j], append([]*types.Transaction{d}, txs[j:]...)...)
+		case "strip":
+			if len(txs) < 1 {
+				cur.na = "no txs"
+				return
+			}
+			txs = nil
 		case "swap":
 			if len(txs) < 2 {
 				cur.na = "fewer than two txs"
@@ -895,6 +925,11 @@ func (tc *tamperCtx) applyOne(cur *built, c *Case, first bool) {
 		} else {
 			cur.base = sim.Decode(o.Bytes)
 		}
+	case "struct":
+		if !first {
+			panic("a structural case must be the first part of a case")
+		}
+		tc.applyStruct(cur, c.S)
 	case "free":
 		if !proposed {
 			cur.na = "empty block"
@@ -922,6 +957,132 @@ func (tc *tamperCtx) applyOne(cur *built, c *Case, first bool) {
 		}
 	default:
 		panic("unknown case type " + c.T)
+	}
+}
+
+// someTxs returns a non-empty tx list to attach: the body of an honest proposal of this height when it has
+// one, else a fabricated (well-formed, signed) transfer.
+func (tc *tamperCtx) someTxs() []*types.Transaction {
+	for _, raw := range [][]byte{tc.o.P, tc.o.Sib} {
+		if raw != nil {
+			if b := sim.Decode(raw); len(b.Body.Transactions) > 0 {
+				return b.Body.Transactions
+			}
+		}
+	}
+	w := tc.cb.w
+	return []*types.Transaction{w.Tx(sim.TxSpec{From: kRich2, To: &w.Addrs[kVictim], Type: types.SendTx, Amount: sim.Dna(2, 1),
+		MaxFee: sim.Dna(100, 1), Nonce: 1})}
+}
+
+// applyStruct builds the structural cases: E = the honest empty header of this height, A = an honest
+// proposal of this height (the original when it is proposed), B = its honest sibling.
+func (tc *tamperCtx) applyStruct(cur *built, s string) {
+	o, w := tc.o, tc.cb.w
+	E := sim.Decode(o.E)
+	A := sim.Decode(o.P)
+	isEmpty := o.Kind == "empty"
+	cur.base = nil
+	both := func(e *types.Block, p *types.Block, body *types.Body) {
+		cur.blk = &types.Block{Header: &types.Header{EmptyBlockHeader: e.Header.EmptyBlockHeader, ProposedHeader: p.Header.ProposedHeader}, Body: body}
+	}
+	switch s {
+	case "attach_p_sib", "attach_p_sib_nobody":
+		d := A
+		if !isEmpty {
+			if o.Sib == nil {
+				cur.na = "no sibling"
+				return
+			}
+			d = sim.Decode(o.Sib)
+		}
+		body := d.Body
+		if s == "attach_p_sib_nobody" {
+			if len(body.Transactions) == 0 {
+				cur.na = "the donor has no txs"
+				return
+			}
+			body = &types.Body{}
+		}
+		both(E, d, body)
+	case "attach_p_other":
+		var d *types.Block
+		for i := len(tc.cb.blocks) - 1; i >= 0; i-- {
+			if x := tc.cb.blocks[i]; x.Header.ProposedHeader != nil && x.Height() != o.Height {
+				d = sim.Decode(sim.Encode(x))
+				break
+			}
+		}
+		if d == nil {
+			cur.na = "no proposed block of another height"
+			return
+		}
+		both(E, d, d.Body)
+	case "attach_p_fab":
+		rb := func(n int) []byte { x := make([]byte, n); tc.rnd.Read(x); return x }
+		ph := &types.ProposedHeader{
+			ParentHash:     o.Parent.Hash(),
+			Height:         o.Height,
+			Time:           E.Header.Time(),
+			TxHash:         common.BytesToHash(rb(32)),
+			ProposerPubKey: crypto.FromECDSAPub(&w.Keys[kUnknown].PublicKey),
+			Root:           common.BytesToHash(rb(32)),
+			IdentityRoot:   common.BytesToHash(rb(32)),
+			IpfsHash:       rb(34),
+			TxBloom:        rb(8),
+			BlockSeed:      types.BytesToSeed(rb(32)),
+			FeePerGas:      big.NewInt(1 + int64(tc.rnd.Intn(1000))),
+			SeedProof:      rb(129),
+			TxReceiptsCid:  rb(34),
+		}
+		txs := []*types.Transaction{w.Tx(sim.TxSpec{From: kUnknown, To: &w.Addrs[kUnknown], Type: types.SendTx, Amount: sim.Dna(1000000, 1),
+			MaxFee: sim.Dna(1, 1), Nonce: 1})}
+		cur.blk = &types.Block{Header: &types.Header{EmptyBlockHeader: E.Header.EmptyBlockHeader, ProposedHeader: ph}, Body: &types.Body{Transactions: txs}}
+	case "attach_e", "attach_e_nobody":
+		if isEmpty {
+			cur.na = "covered by attach_p_sib on an empty original"
+			return
+		}
+		body := A.Body
+		if s == "attach_e_nobody" {
+			if len(body.Transactions) == 0 {
+				cur.na = "no txs"
+				return
+			}
+			body = &types.Body{}
+		}
+		both(E, A, body)
+	case "both_e_tampered":
+		f := eFields[tc.rnd.Intn(len(eFields))]
+		nv, _ := applyOp(f, []string{"inc", "dec", "flip"}[tc.rnd.Intn(3)], getField(E, f), tc.rnd, nil)
+		setField(E, f, nv)
+		both(E, A, A.Body)
+	case "both_p_tampered":
+		fs := []string{"parent", "height", "seed", "proof", "txhash", "bloom", "flags", "root", "idroot", "ipfs", "rcid"}
+		f := fs[tc.rnd.Intn(len(fs))]
+		nv, _ := applyOp(f, []string{"inc", "dec", "flip"}[tc.rnd.Intn(3)], getField(A, f), tc.rnd, nil)
+		setField(A, f, nv)
+		both(E, A, A.Body)
+	case "neither":
+		cur.blk = &types.Block{Header: &types.Header{}, Body: &types.Body{}}
+	case "neither_body":
+		cur.blk = &types.Block{Header: &types.Header{}, Body: &types.Body{Transactions: tc.someTxs()}}
+	case "body_on_empty":
+		cur.blk = &types.Block{Header: &types.Header{EmptyBlockHeader: E.Header.EmptyBlockHeader}, Body: &types.Body{Transactions: tc.someTxs()}}
+	case "to_empty":
+		if isEmpty {
+			cur.na = "the original is the empty block"
+			return
+		}
+		cur.blk = E
+	case "to_proposed":
+		if !isEmpty {
+			cur.na = "the original is a proposal"
+			return
+		}
+		cur.blk = A
+	default:
+		panic("unknown structural case " + s)
 	}
 }
 
@@ -1081,6 +1242,50 @@ func (r *runner) ref(o *Original, key int) []string {
 	return o.refs[key]
 }
 
+// honestByHash: the honest blocks of this height (original, sibling, empty block, proposals of other keys).
+func (o *Original) honestByHash() map[common.Hash][]byte {
+	if o.byHash == nil {
+		o.byHash, o.names = map[common.Hash][]byte{}, map[common.Hash]string{}
+		add := func(name string, raw []byte) {
+			if raw != nil {
+				h := sim.Decode(raw).Hash()
+				if _, ok := o.byHash[h]; !ok {
+					o.byHash[h], o.names[h] = raw, name
+				}
+			}
+		}
+		add("original", o.Bytes)
+		add("empty", o.E)
+		add("proposal", o.P)
+		add("sibling", o.Sib)
+		for k, raw := range o.Inelig {
+			add("proposal-of-"+k, raw)
+		}
+	}
+	return o.byHash
+}
+
+func (o *Original) honestName(h common.Hash) string {
+	o.honestByHash()
+	return o.names[h]
+}
+
+// twin: observation of a clean node after inserting the honest block with the given hash.
+func (r *runner) twin(o *Original, key int, h common.Hash, raw []byte) []string {
+	k := fmt.Sprintf("%d/%x", key, h[:8])
+	if x, ok := o.twins[k]; ok {
+		return x
+	}
+	n := r.fresh(o, key)
+	var res []string
+	if err := n.Chain.AddBlock(sim.Decode(raw), nil, collector.NewStatsCollector()); err == nil {
+		res = obs(n)
+	}
+	wipe(n)
+	o.twins[k] = res
+	return res
+}
+
 func (r *runner) runCase(o *Original, ex *Exported, idx int, vkey int) {
 	c := ex.C
 	rnd := rand.New(rand.NewSource(r.seed*1000003 + int64(o.ID)*7919 + int64(idx)))
@@ -1097,6 +1302,13 @@ func (r *runner) runCase(o *Original, ex *Exported, idx int, vkey int) {
 		diff = diffFields(sim.Decode(data), bt.base)
 	} else {
 		diff = diffFields(sim.Decode(data), sim.Decode(o.Bytes))
+	}
+	if c.T == "struct" {
+		// the header carries other parts / the body was attached: not a field-by-field difference
+		diff = []string{"shape"}
+		if c.S == "to_empty" || c.S == "to_proposed" {
+			diff = []string{}
+		}
 	}
 	if len(diff) == 0 && (ex.Cond || ex.Expect == "free") {
 		r.out.Emit(tr.M{"ev": "Skip", "kind": o.Kind, "c": c, "why": "same", "orig": o.ID})
@@ -1119,6 +1331,9 @@ func (r *runner) runCase(o *Original, ex *Exported, idx int, vkey int) {
 		_, err := n.Chain.ValidateBlock(sim.Decode(data), nil, collector.NewStatsCollector())
 		return err
 	})
+	if c.T == "struct" {
+		v.Stage = "" // the model names no code stage for malformed shapes
+	}
 	r.out.Emit(tr.M{"ev": "Validate", "r": v.R, "stage": v.Stage, "err": v.Err, "post": obs(n), "stored": ipfsHas(n, bodyBytes)})
 	r.cnt["validate_"+v.R]++
 	if v.R == "panic" {
@@ -1147,7 +1362,37 @@ func (r *runner) runCase(o *Original, ex *Exported, idx int, vkey int) {
 	if a.R != "accept" {
 		stored = ipfsHas(n, bodyBytes)
 	}
-	r.out.Emit(tr.M{"ev": "Add", "r": a.R, "stage": a.Stage, "err": a.Err, "post": obs(n), "stored": stored, "mode": mode})
+	if c.T == "struct" {
+		a.Stage = ""
+	}
+	addLine := tr.M{"ev": "Add", "r": a.R, "stage": a.Stage, "err": a.Err, "post": obs(n), "stored": stored, "mode": mode, "twin": []string{}}
+	if a.R == "accept" {
+		// what was stored, compared with the honest block the new head claims (by hash) to be
+		hh := n.Chain.Head.Hash()
+		if raw := o.honestByHash()[hh]; raw != nil {
+			if tw := r.twin(o, vkey, hh, raw); tw != nil {
+				addLine["twin"] = tw
+				addLine["twin_is"] = o.honestName(hh)
+			}
+			hb := sim.Decode(raw)
+			stHdr := n.Chain.GetBlockHeaderByHeight(hb.Height())
+			var stBytes, hBytes []byte
+			if stHdr != nil {
+				stBytes, _ = stHdr.ToBytes()
+			}
+			hBytes, _ = hb.Header.ToBytes()
+			addLine["stored_header_is_honest"] = bytes.Equal(stBytes, hBytes)
+			addLine["honest_txs"] = len(hb.Body.Transactions)
+		}
+		idx := 0
+		for _, tx := range sim.Decode(data).Body.Transactions {
+			if n.Chain.GetTxIndex(tx.Hash()) != nil {
+				idx++
+			}
+		}
+		addLine["tx_index_entries"] = idx
+	}
+	r.out.Emit(addLine)
 	r.cnt["add_"+a.R]++
 	r.cnt["offered"]++
 	r.cnt["offered_"+c.T]++
